@@ -116,6 +116,7 @@ func c04Compile(sp *c04Spec, disk *DiskSpec) (*c04Side, string) {
 	if err != nil {
 		return nil, err.Error()
 	}
+	sp.Prog.ApplyTplOptions(s.tpl)
 	return s, ""
 }
 
